@@ -147,7 +147,7 @@ def run(tier, seed):
                      f"{'all' if tier == 'thorough' else 'every 8th'} histories at write boundaries. a case = (history, crash state group); non-trivial = the write in flight is torn (neither empty nor complete)", seed)
     jobs = [job(h, tier, i) for i, h in enumerate(hs)]
     res = runner.run_many("crash", jobs, timeout=3600, progress=20)
-    tot_states = tot_nested = tot_points = 0
+    tot_states = tot_nested = tot_points = tot_torn = 0
     for h, r in zip(hs, res):
         if r.get("abort"):
             chk.fail(core.case_id({"history": h}), "abort", {"history": h}, r)
@@ -156,6 +156,7 @@ def run(tier, seed):
         tot_states += s["crash_states"]
         tot_nested += s["nested_states"]
         tot_points += s["crash_points"]
+        tot_torn += s.get("torn_states", 0)
         bad_ops = [x for x in s["op_results"] if U.status(x) not in ("rows", "ok")]
         if bad_ops:
             chk.machinery(f"history {h}: an operation failed in the recorded run: {bad_ops[0]}")
@@ -171,7 +172,8 @@ def run(tier, seed):
                     chk.fail(cid, v[0], case, {"detail": v[1], "states_in_group": g["count"]}, outcome=v[0])
             else:
                 chk.ok(cid, nontrivial=torn, outcome=f"recovered:{'after' if g['inflight'] is not None else 'idle'}", sample={"history": h, "crash_states": g["examples"][:2]})
-    chk.extra.update(histories=len(hs), crash_points=tot_points, crash_states=tot_states, nested_crash_states=tot_nested)
+    chk.nontrivial_override = tot_torn        # per crash state (the groups merge states with equal observations)
+    chk.extra.update(histories=len(hs), crash_points=tot_points, crash_states=tot_states, torn_write_states=tot_torn, nested_crash_states=tot_nested)
     chk.assumptions += ["crash model of the property: persistence steps take effect in program order, the write in flight may be any prefix, fsynced data is durable; loss of directory entries is not modelled",
                         "crash points are the instrumented persistence steps (hooks in manifest.rs, version_manager.rs, storage.rs, transaction.rs, rowset_writer.rs)"]
     return chk
